@@ -581,7 +581,9 @@ func (e *Engine) mapOrder(n int) []int {
 	if e.cfg.MapOrder == "symbolic" && n > 1 {
 		e.mapOrderCtr++
 		name := fmt.Sprintf("env.maporder.%d", e.mapOrderCtr)
-		rot := e.chooseEnv(name+".rot", n)
+		// insertion order, rotated by one, and both reversed: enough to expose order dependence
+		// without multiplying paths by n!
+		rot := e.chooseEnv(name+".rot", 2)
 		rev := e.chooseEnv(name+".rev", 2)
 		for i := range order {
 			order[i] = (i + rot) % n
@@ -680,8 +682,15 @@ func (e *Engine) chanSend(c *Chan, v Value) {
 		panic(targetPanic{msg: "send on closed channel"})
 	}
 	if len(c.buf) >= c.cap {
-		// try to let other goroutines make progress (none can receive in our model)
-		panic(pathEnd{kind: "deadlock", msg: "send on full channel would block"})
+		if e.inGoroutine > 0 {
+			// A goroutine blocked in a send: the value waits in the sender queue until a receiver takes
+			// it (rendezvous). Model limitation, stated in DESIGN: the goroutine itself is run on past
+			// the send instead of being suspended; ysgo's and the harnesses' goroutines end right after
+			// their send.
+			c.sendq = append(c.sendq, copyVal(v))
+			return
+		}
+		panic(pathEnd{kind: "deadlock", msg: "send on full channel would block the main flow"})
 	}
 	c.buf = append(c.buf, copyVal(v))
 }
@@ -691,6 +700,11 @@ func (e *Engine) chanRecv(c *Chan, elem types.Type, blocking bool) (Value, bool)
 		panic(pathEnd{kind: "deadlock", msg: "receive on nil channel"})
 	}
 	for len(c.buf) == 0 {
+		if len(c.sendq) > 0 {
+			v := c.sendq[0]
+			c.sendq = c.sendq[1:]
+			return v, true
+		}
 		if c.closed {
 			return e.zero(elem), false
 		}
@@ -704,6 +718,10 @@ func (e *Engine) chanRecv(c *Chan, elem types.Type, blocking bool) (Value, bool)
 	}
 	v := c.buf[0]
 	c.buf = c.buf[1:]
+	if len(c.sendq) > 0 && len(c.buf) < c.cap {
+		c.buf = append(c.buf, c.sendq[0])
+		c.sendq = c.sendq[1:]
+	}
 	return v, true
 }
 
@@ -713,6 +731,8 @@ func (e *Engine) runOneGoroutine() bool {
 	}
 	g := e.goroutines[0]
 	e.goroutines = e.goroutines[1:]
+	e.inGoroutine++
+	defer func() { e.inGoroutine-- }()
 	e.call(nil, token.NoPos, g.fn, g.args)
 	return true
 }
@@ -729,7 +749,7 @@ func (e *Engine) selectOp(fr *frame, instr *ssa.Select) Value {
 				continue
 			}
 			if st.Dir == types.RecvOnly {
-				if len(c.buf) > 0 || c.closed {
+				if len(c.buf) > 0 || len(c.sendq) > 0 || c.closed {
 					v, ok := e.chanRecv(c, st.Chan.Type().Underlying().(*types.Chan).Elem(), false)
 					chosen, recvVal, recvOk = i, v, ok
 					return true
